@@ -278,14 +278,11 @@ type UnregInside struct {
 
 type typeInfo struct {
 	t reflect.Type
-	// knownOnly: every value of this type contains a D-C12 shape or is refused
-	// by the encoder (pointer-to-container fields).
-	knownOnly bool
+	// gate: the type is only chosen when the profile allows it (nil: always)
+	gate func(profile) bool
 	// deep: has pointer fields/elements of depth >= 2 (nil there is a D-C12 shape;
 	// the clean cases fill them with non-nil chains).
 	deep bool
-	// ptrIface: has pointer-to-interface fields (only chosen when the profile allows them)
-	ptrIface bool
 	// weight in the type choice (big types are chosen less often)
 	w int
 }
@@ -370,9 +367,9 @@ func registerAll() error {
 			{t: rt[Named](), w: 5},
 			{t: rt[Ptr1](), w: 6},
 			{t: rt[PtrDeep](), deep: true, w: 4},
-			{t: rt[PtrCont](), knownOnly: true, w: 2},
-			{t: rt[PtrCont2](), knownOnly: true, w: 2},
-			{t: rt[PtrIface](), ptrIface: true, w: 6},
+			{t: rt[PtrCont](), w: 3},
+			{t: rt[PtrCont2](), w: 3},
+			{t: rt[PtrIface](), gate: gPtrIfc, w: 6},
 			{t: rt[Slices](), w: 5},
 			{t: rt[SlicesDeep](), deep: true, w: 2},
 			{t: rt[Maps](), w: 5},
@@ -401,6 +398,7 @@ func registerAll() error {
 			reflect.StructOf([]reflect.StructField{{Name: "A", Type: rt[int]()}, {Name: "B", Type: rt[string]()}}),
 		}
 		shapeImpls = []reflect.Type{rt[Circle](), reflect.PointerTo(rt[Rect]()), rt[UnitSq]()}
+		registerMore()
 	})
 	return regErr
 }
